@@ -84,6 +84,24 @@ Definition schema_defaults_ok (S : schema) : bool :=
                      end) (s_types S)
   && forallb (fun nd => forallb (fun a => default_ok (snd a)) (dd_args (snd nd))) (s_directives S).
 
+(** an object type has the fields of the interfaces it declares, requiring no more features than the
+    interface's field does (ObjectType.satisfyInterface), and the members of a union are object types *)
+Definition implements_ok (S : schema) (ofs : list (name * field_def)) (i : name) : bool :=
+  match raw_body S i with
+  | Some (TInterface ifs) =>
+      forallb (fun nf => match assoc (fst nf) ofs with
+                         | Some fd' => subset (f_req fd') (f_req (snd nf))
+                         | None => false
+                         end) ifs
+  | _ => true
+  end.
+Definition schema_ifaces_ok (S : schema) : bool :=
+  forallb (fun nt => match t_body (snd nt) with
+                     | TObject ofs ifs => forallb (implements_ok S ofs) ifs
+                     | TUnion ms => forallb (fun m => match raw_body S m with Some (TObject _ _) => true | _ => false end) ms
+                     | _ => true
+                     end) (s_types S).
+
 (** every field selection of the document has a definition (5.3.1 holds and every selection set has
     a known parent type) *)
 Definition fields_defined (S : schema) (F : features) (D : document) : bool :=
